@@ -565,3 +565,20 @@ def href_pairing_obligations(ctx):
            "resource's path up in the path -> href table, not by position")
 def m10(ctx):
     return href_pairing_obligations(ctx)
+
+
+@rule("C17", "M11", floor=9, kind="N",
+      desc="an href of the request body resolves like the same URL in a GET: every path reaching the backend's mapping "
+           "to a file is normalised (same obligations as C13/P1) - the request path is normalised by the front end, the "
+           "hrefs of a multiget only by the backend, so without it `..` segments in an href answer with the data of a "
+           "resource that GET on that URL does not have")
+def m11(ctx):
+    from .c13 import p1
+    return p1(ctx)
+
+
+@rule("C17", "M12", floor=20, kind="N",
+      desc="multiget answers from the state the preceding write left: the store readers a lookup by href goes through keep no parsed index / tree on the store object (same obligations as C04/B8) - a copy keyed by HEAD is stale whenever HEAD moves before the index file is written")
+def m12_rp(ctx):
+    from .c04 import reader_purity_obligations
+    return reader_purity_obligations(ctx)
